@@ -121,6 +121,7 @@ impl Clone for Bytes { #[verifier::external_body] fn clone(&self) -> (r: Self) e
 impl Bytes {
     #[verifier::external_body] pub fn default() -> (r: Bytes) ensures r@ == Seq::<u8>::empty() { unimplemented!() }
 }
+impl core::ops::Deref for Bytes { type Target = [u8]; #[verifier::external_body] fn deref(&self) -> (r: &[u8]) ensures r@ == self@ { unimplemented!() } }
 pub broadcast axiom fn axiom_bytes_ext(a: Bytes, b: Bytes) requires #[trigger] a@ == #[trigger] b@ ensures a == b;
 
 pub struct CoinData { pub covhash: Address, pub value: CoinValue, pub denom: Denom, pub additional_data: Bytes }
